@@ -34,6 +34,9 @@ replace verifharness => %s
 const pkgA = `package concpkg
 
 func FmapChan(f func(int) int, in <-chan int) <-chan int { return deriveFmapC(f, in) }
+
+// Fmap with a channel-valued function (the function Pipeline is built on, called directly)
+func FmapCh(f func(int) <-chan int, in <-chan int) <-chan (<-chan int) { return deriveFmap(f, in) }
 func JoinCC(in <-chan (<-chan int)) <-chan int          { return deriveJoinCC(in) }
 func JoinSC(in []<-chan int) <-chan int                 { return deriveJoinSC(in) }
 func JoinV2(c0, c1 <-chan int) <-chan int               { return deriveJoinV2(c0, c1) }
@@ -56,6 +59,10 @@ func JoinCCb(in chan (<-chan int)) <-chan int  { return deriveJoinCCb(in) }
 func JoinSCb(in []chan int) <-chan int         { return deriveJoinSCb(in) }
 func JoinV3(c0, c1, c2 chan int) <-chan int    { return deriveJoinV3(c0, c1, c2) }
 func DupB(c chan int) (<-chan int, <-chan int) { return deriveDupB(c) }
+
+// a second package with two Do calls of different arities, the larger one first
+func Do3b(f0, f1, f2 func() (int, error)) (int, int, int, error) { return deriveDo3b(f0, f1, f2) }
+func Do2b(f0, f1 func() (int, error)) (int, int, error)         { return deriveDo2b(f0, f1) }
 `
 
 const vsMain = `package main
@@ -70,14 +77,15 @@ import (
 func main() {
 	conc.MainV(&conc.VFuncs{
 		Fmap:     map[string]func(func(int) int, conc.VC) conc.VC{"FmapChan": a.FmapChan},
+		FmapCh:   a.FmapCh,
 		Dup:      map[string]func(conc.VC) (conc.VC, conc.VC){"DupR": a.DupR, "DupB": b.DupB},
 		JoinCC:   map[string]func(*vsched.Chan[conc.VC]) conc.VC{"JoinCC": a.JoinCC, "JoinCCb": b.JoinCCb},
 		JoinSC:   map[string]func([]conc.VC) conc.VC{"JoinSC": a.JoinSC, "JoinSCb": b.JoinSCb},
 		JoinV2:   a.JoinV2,
 		JoinV3:   b.JoinV3,
 		Pipeline: a.Pipeline,
-		Do2:      a.Do2,
-		Do3:      a.Do3,
+		Do2:      map[string]func(f0, f1 func() (int, error)) (int, int, error){"Do2": a.Do2, "Do2b": b.Do2b},
+		Do3:      map[string]func(f0, f1, f2 func() (int, error)) (int, int, int, error){"Do3": a.Do3, "Do3b": b.Do3b},
 		Do4:      a.Do4,
 	})
 }
@@ -93,7 +101,8 @@ import (
 
 func main() {
 	conc.MainR(&conc.RFuncs{
-		Fmap: map[string]func(func(int) int, <-chan int) <-chan int{"FmapChan": a.FmapChan},
+		Fmap:   map[string]func(func(int) int, <-chan int) <-chan int{"FmapChan": a.FmapChan},
+		FmapCh: a.FmapCh,
 		Dup: map[string]func(chan int) (<-chan int, <-chan int){
 			"DupR": func(c chan int) (<-chan int, <-chan int) { return a.DupR(c) }, "DupB": b.DupB},
 		JoinCC: map[string]func(chan (<-chan int)) <-chan int{
@@ -112,8 +121,8 @@ func main() {
 		JoinV2:   func(c0, c1 chan int) <-chan int { return a.JoinV2(c0, c1) },
 		JoinV3:   b.JoinV3,
 		Pipeline: a.Pipeline,
-		Do2:      a.Do2,
-		Do3:      a.Do3,
+		Do2:      map[string]func(f0, f1 func() (int, error)) (int, int, error){"Do2": a.Do2, "Do2b": b.Do2b},
+		Do3:      map[string]func(f0, f1, f2 func() (int, error)) (int, int, int, error){"Do3": a.Do3, "Do3b": b.Do3b},
 		Do4:      a.Do4,
 	})
 }
